@@ -239,7 +239,7 @@ func (p *Plugin) Execute(ctx wctx.Context, req any) (any, *plugins.Error) {
 	}
 	to := p.RdvTimeout
 	if to == 0 {
-		to = 30 * time.Second
+		to = 8 * time.Second
 	}
 	rdvTO := false
 	if st.WaitTag != "" {
